@@ -536,7 +536,7 @@ func crashCampaign(prop string, r *Result, quick, thorough int, double bool) {
 	per := (n + workers - 1) / workers
 	parallel(workers, workers, func(w int) {
 		rng := newRand(uint64(9000 + w))
-		for i := w*per - 3; i < (w+1)*per && i < n; i++ {
+		for i := w*per - 3; i < (w+1)*per && i < n && !expired(); i++ {
 			if i < 0 && w != 0 {
 				continue
 			}
